@@ -78,7 +78,7 @@ def judge(ctx, src, its):
         records.append(rec)
         ctx.evaluations += len(rec["routes"]) + len(rec["loops"])
     ctx.log("Act T: TLC judges %d records (%d observations)" % (len(records), ctx.evaluations))
-    res = tlc.validate_traces("DBATrace", "DBATrace.cfg", records, chunk=60, parallel=14)
+    res = tlc.validate_traces("DBATrace", "DBATrace.cfg", records, chunk=60, parallel=14, canary_fields=["news"])
     ctx.add_tv(res)
     classify(ctx, by_id, res["fails"])
     ctx.nontrivial = {it["id"] for it in its if (not all(it["mask"])) or it["set"]["w"] or it["set"]["pen"]}
